@@ -225,6 +225,86 @@ theorem insert_remove_id_interval (num a b : Int) (hab : a ≤ b) (n : Nat) :
     rw [e, insert_remove_interval num (n : Int) a b (by omega) hab]
     simpa using ih
 
+/-! ## The grid: the dimension step renumbers by the shift, re-densification positions by number
+
+`adjustRowDimensions`/`adjustColDimensions` map `shiftRow`/`shiftCell` over the row slots / cells;
+`checkSheet` then stores every row at the slot of its number. (The composition into one
+`insert_rows_refines` statement over the density invariant is not proved; it is carried by the
+correspondence, see design.d/C06.md.) -/
+
+/-- `checkSheet` positions rows by their number: slot `j` holds the (last) row numbered `j+1`,
+or an empty row, and is renumbered `j+1`; the result has exactly `last.r` slots. -/
+theorem checkSheet_slot (rows : List Row) (h : incFrom 0 rows = true) :
+    ∃ out, checkSheet rows = some out ∧
+      out.length = ((rows.getLast?.map (fun r : Row => r.r)).getD 0).toNat ∧
+      ∀ j, j < out.length →
+        out[j]? = some { (match rows.reverse.find? (fun r => (r.r - 1).toNat == j) with
+                          | some r => r
+                          | none => zeroRow) with r := (j : Int) + 1 } := by
+  unfold checkSheet
+  simp only [h, if_true]
+  refine ⟨_, rfl, ?_, ?_⟩
+  · simp [place_size]
+  · intro j hj
+    simp only [List.length_map, List.length_zipIdx, Array.length_toList, place_size, Array.size_replicate] at hj
+    simp only [List.getElem?_map, List.getElem?_zipIdx, Array.getElem?_toList, place_getElem?,
+      Array.size_replicate, hj, if_true]
+    cases hf : rows.reverse.find? (fun r => (r.r - 1).toNat == j) with
+    | some r => simp
+    | none => simp [hj]
+
+
+/-- the dimension step renumbers a row (with its attributes and all its cells) to exactly the
+position the shift dictates, and renames every cell to the row's new number -/
+theorem shiftRow_spec (row n : Int) (hn : 0 ≤ n) (r : Row) (hr : 1 ≤ r.r) :
+    (shiftRow row n r).r = Spec.posIns row n r.r ∧
+    (shiftRow row n r).hidden = r.hidden ∧ (shiftRow row n r).attr = r.attr ∧
+    (shiftRow row n r).cells.map (fun x => (x.c, x.s, x.v)) = r.cells.map (fun x => (x.c, x.s, x.v)) ∧
+    ((∀ x ∈ r.cells, x.r = r.r) → ∀ x ∈ (shiftRow row n r).cells, x.r = (shiftRow row n r).r) := by
+  unfold shiftRow Spec.posIns bumpRow
+  by_cases h : r.r ≥ row ∧ r.r + n > 0
+  · have h' : ¬ r.r < row := by omega
+    simp only [h, and_self, if_true, h', if_false, true_and]
+    refine ⟨?_, ?_⟩
+    · simp [List.map_map, Function.comp_def]
+    · intro _ x hx
+      obtain ⟨y, _, rfl⟩ := List.mem_map.mp hx
+      rfl
+  · have h' : r.r < row := by omega
+    simp only [h, if_false, h', if_true, true_and]
+    exact fun hc => hc
+
+/-- removal: after the slot of `row` is dropped, every later row moves up by exactly one -/
+theorem shiftRow_del_spec (row : Int) (r : Row) (hr : 1 ≤ r.r) (hne : r.r ≠ row) (h1 : 1 ≤ row) :
+    (shiftRow row (-1) r).r = Spec.posDel row r.r := by
+  unfold shiftRow Spec.posDel bumpRow
+  by_cases h : r.r ≥ row ∧ r.r + -1 > 0
+  · have h' : ¬ r.r < row := by omega
+    simp [h, h']; omega
+  · have h' : r.r < row := by omega
+    simp [h, h']
+
+/-- columns: a cell keeps row, style and payload and moves to exactly the shifted column -/
+theorem shiftCell_spec (col n : Int) (hn : 0 ≤ n) (x : Cell) (hc : 1 ≤ x.c) :
+    (shiftCell col n x).c = Spec.posIns col n x.c ∧ (shiftCell col n x).r = x.r ∧
+    (shiftCell col n x).s = x.s ∧ (shiftCell col n x).v = x.v := by
+  unfold shiftCell Spec.posIns
+  by_cases h : col ≤ x.c ∧ x.c + n > 0
+  · have h' : ¬ x.c < col := by omega
+    simp [h, h']
+  · have h' : x.c < col := by omega
+    simp [h, h']
+
+theorem shiftCell_del_spec (col : Int) (x : Cell) (hc : 1 ≤ x.c) (hne : x.c ≠ col) (h1 : 1 ≤ col) :
+    (shiftCell col (-1) x).c = Spec.posDel col x.c := by
+  unfold shiftCell Spec.posDel
+  by_cases h : col ≤ x.c ∧ x.c + -1 > 0
+  · have h' : ¬ x.c < col := by omega
+    simp [h, h']; omega
+  · have h' : x.c < col := by omega
+    simp [h, h']
+
+
 /-! ## Rejected edits -/
 
 /-- clause "an edit that is rejected because it would push content past row
